@@ -45,6 +45,8 @@ class MultiTag(BaseTag):
     def positions(self, da):
         if da is None:
             raise TypeError("MultiTag.positions cannot be None.")
+        if not isinstance(da, DataArray):
+            raise TypeError("MultiTag.positions must be a DataArray, not {}".format(type(da)))
         if "positions" in self._h5group:
             del self._h5group["positions"]
         self._h5group.create_link(da, "positions")
